@@ -2,6 +2,7 @@ package sim
 
 import (
 	"fmt"
+	"io"
 	"strings"
 	"time"
 
@@ -40,6 +41,9 @@ type c06Scenario struct {
 	LatencyNs int64      `json:"latency_ns"`
 	Dawdle    int        `json:"handler_dawdle"`
 	Repeats   int        `json:"requests_received_twice,omitempty"`
+	// client with stream management: at the very end an unmatched request arrives while the socket fails
+	// the write of the automatic reply; the session is resumed; the requester gets its one error then
+	ReplyWriteFails bool `json:"write_of_the_automatic_reply_fails_then_resumption,omitempty"`
 }
 
 const (
@@ -245,6 +249,18 @@ func runC06(e *Engine, g G, o RunOpt) RunInfo {
 	}
 	sc.Seg, sc.LatencyNs = netModes(g, e)
 	sc.Dawdle = g.N("dawdle", 3)
+	rwf := c06Pkt{Kind: "iq", ID: "rwf", Type: "get", Payload: "urn:example:nobody-handles-this", From: "peer@" + SimDomain + "/x", To: me,
+		Raw: fmt.Sprintf("<iq id='rwf' type='get' from='peer@%s/x' to='%s'><query xmlns='urn:example:nobody-handles-this'/></iq>", SimDomain, me)}
+	endsWithErr := len(sc.Packets) > 0 && sc.Packets[len(sc.Packets)-1].ID == "se"
+	sc.ReplyWriteFails = !sc.Component && !endsWithErr && refRoute(sc.Routes, rwf) < 0 && g.Pct("reply-write-fails", 40)
+	if sc.ReplyWriteFails {
+		// (no acknowledgements among the packets: they would make the client send held stanzas again)
+		for i := range sc.Packets {
+			if sc.Packets[i].Kind == "other" {
+				sc.Packets[i].Raw = "<stream:features><bind xmlns='" + nsBind + "'/></stream:features>"
+			}
+		}
+	}
 
 	type hit struct {
 		route int
@@ -263,6 +279,8 @@ func runC06(e *Engine, g G, o RunOpt) RunInfo {
 	var hits []hit
 	established := false
 	var conn *SrvConn
+	var sess *Sess
+	rwfChecked, rwfReplies := false, 0
 	var estItems int
 	build := func(r *xmpp.Router) {
 		var created []*xmpp.Route
@@ -312,11 +330,16 @@ func runC06(e *Engine, g G, o RunOpt) RunInfo {
 			}
 			conn = c
 		} else {
-			s, ok := StartClient(e, DefaultClientOpts(), []NegScript{DefaultNeg()}, func(w *CW, s *Server) { build(w.Router) })
+			opts, script := DefaultClientOpts(), DefaultNeg()
+			if sc.ReplyWriteFails {
+				opts.SM, opts.SMResume, script.SM = true, true, true
+			}
+			s, ok := StartClient(e, opts, []NegScript{script, script}, func(w *CW, s *Server) { build(w.Router) })
 			if !ok {
 				return
 			}
 			conn = s.Conn
+			sess = s
 		}
 		established = true
 		estItems = len(conn.Recv)
@@ -326,7 +349,33 @@ func runC06(e *Engine, g G, o RunOpt) RunInfo {
 		}
 		conn.SendChunks(all.String(), 900)
 		e.Sleep(30 * time.Second)
+		if sc.ReplyWriteFails && sess != nil && conn.Enabled {
+			cli := conn.Pipe.Cli
+			cli.FailWriteAt = cli.Writes + 1
+			conn.Send(rwf.Raw)
+			e.Sleep(2 * time.Second)
+			nd := countState(sess.W.Events, xmpp.StateDisconnected)
+			cli.CutAt = conn.End.TotalWritten
+			cli.CutErr = io.EOF
+			if !e.WaitUntilFor("lost", time.Minute, func() bool { return countState(sess.W.Events, xmpp.StateDisconnected) > nd }) {
+				e.Sleep(time.Second)
+				sess.Srv.Scripts[1].ResumedH = clientStanzasOnSession(conn)
+				if err, _ := e.Call("Resume", sess.W.Client.Resume); err == nil && len(sess.Srv.Conns) == 2 && sess.Srv.Conns[1].Established == "resumed" {
+					e.Sleep(5 * time.Second)
+					rwfChecked = true
+					for _, r := range sess.Srv.Conns[1].Elements() {
+						if el := r.Item.Elem; el.Local == "iq" && el.Attr("type") == "error" && el.Attr("id") == "rwf" {
+							rwfReplies++
+						}
+					}
+					e.Probe("c06.reply_write_failed_then_resumed")
+				}
+			}
+		}
 	})
+	if rwfChecked && rwfReplies != 1 {
+		e.Violate("C06", "auto-reply-count="+cnt(rwfReplies)+":after-resumption", "an unmatched IQ get arrived while the socket failed the write of the automatic reply; after the resumption of the session the server received %d error replies for it, expected exactly one", rwfReplies)
+	}
 
 	info := RunInfo{Scenario: sc, Nontrivial: established}
 	if !established {
